@@ -52,12 +52,14 @@ WireRun(h) == h.out.set /\ h.par.entry = "proto"
 snt1(h) == SentOfRun(h, 1)
 dl1(h) == DelOfRun(h, 1)
 
-PropIds == {"C01", "C02", "C03", "C04", "C05", "C06", "C08", "C09", "C10"}
+PropIds == {"C01", "C02", "C03", "C04", "C05", "C06", "C07", "C08", "C09", "C10"}
+EngRun(h) == h.out.set /\ h.par.entry = "engine"
 
 \* is property p applicable to the finished scenario h / does it hold (evaluated lazily, only when applicable)
 App(p, h) ==
     LET s == snt1(h)  ok == h.out.ok IN
-    CASE p \in {"C01", "C04", "C05"} -> WireRun(h) /\ ok
+    CASE EngRun(h) -> p \in {"C03", "C05", "C06", "C08", "C10"} \/ (p = "C07" /\ h.par.variant = "engine_parallel")
+      [] p \in {"C01", "C04", "C05"} -> WireRun(h) /\ ok
       [] p \in {"C02", "C03"}        -> WireRun(h) /\ ok /\ Len(s) >= 1
       [] p \in {"C06", "C08", "C10"} -> WireRun(h)
       [] p = "C09" -> WireRun(h) /\ h.twinof # "" /\ h.twin.set /\ h.twin.scen = h.twinof
@@ -65,7 +67,9 @@ App(p, h) ==
 
 Holds(p, h) ==
     LET s == snt1(h)  d == dl1(h)  hp == h.out.hops IN
-    CASE p = "C01" -> C01_run(h, s, d, hp)
+    CASE EngRun(h) -> (CASE p = "C03" -> C03_eng(h) [] p = "C05" -> C05_eng(h) [] p = "C06" -> C06_eng(h)
+                          [] p = "C07" -> C07_eng(h) [] p = "C08" -> C08_eng(h) [] p = "C10" -> C10_eng(h) [] OTHER -> TRUE)
+      [] p = "C01" -> C01_run(h, s, d, hp)
       [] p = "C02" -> C02_run(h, s, d, hp)
       [] p = "C03" -> C03_run(h, s, d, hp)
       [] p = "C04" -> C04_run(h, s, d, hp)
